@@ -80,6 +80,22 @@ func c01Run(c *mon.Ctx, aText, bText string, o OptSet) (string, map[string]any) 
 		return "patched document differs from b under the " + o.Reading.String() + " reading (independent canonical form)",
 			map[string]any{"diff": ref.HunksString(hs), "patched": ref.ToJSON(p)}
 	}
+	// The property speaks of applying a.Diff(b) to a: the very node the diff
+	// was computed from, whose arrays the hunks may still refer to.
+	if len(hs) > 0 {
+		c.Feature("applied_to_the_operand_itself")
+		P2, err := A.Patch(d)
+		if err != nil {
+			return "a.Patch(a.Diff(b)) on the very operand the diff was computed from returned an error: " + err.Error(), map[string]any{"diff": ref.HunksString(hs)}
+		}
+		if P2 == nil {
+			return "Patch returned nil node and nil error", map[string]any{"diff": ref.HunksString(hs)}
+		}
+		if p2 := Plain(P2); !ref.Eq(p2, b, o.Reading) {
+			return "a.Patch(a.Diff(b)) on the very operand the diff was computed from differs from b under the " + o.Reading.String() + " reading",
+				map[string]any{"diff": ref.HunksString(hs), "patched": ref.ToJSON(p2)}
+		}
+	}
 	c.Sample(map[string]any{"diff": ref.HunksString(hs), "patched": ref.ToJSON(p)})
 	return "", nil
 }
